@@ -3,6 +3,13 @@
                                trees are rearranged one after the other with the SAME
                                NNIRearranger value, as cmd/nni.go does for a multi-tree input;
                                every tree is judged on its own, exactly as a single tree
+           ((par (T1 T2 ...)))   the trees are enumerated concurrently by one goroutine each, all
+                               sharing ONE rearranger value, the enumerations made to overlap;
+                               obs and judgement as for (trees ...)
+           ((tree T) (at i) [(nested T2)])   from inside the callback of proposal i (applied) a
+                               second enumeration is run with the same rearranger value on T2,
+                               or without (nested ..) on the same tree object (= that
+                               neighbour); obs ((runs (outer inner))), both judged on their own
            ((tree T) (ops (A U A U)))   the operations done on every proposal object inside the
                                callback instead of Apply, Undo; props carry (steps (((op A)
                                (err e) (tree T) (audit ..) (nw s)) ...)), one entry per operation
@@ -406,8 +413,23 @@ Definition judge_multi (ts : list utree) (os : list sexp) : verdict :=
       end
     end.
 
+(** a second enumeration started from inside the callback of the first one, with the same
+    rearranger value, while proposal [at] is applied: on another tree ([nested]) or on the
+    same tree object, i.e. on that neighbour of the case's tree; both enumerations are judged
+    on their own *)
+Definition nested_trees (c : sexp) (t : utree) : option (list utree) :=
+  at_ <- get_nat "at" c ;;
+  match get "nested" c with
+  | Some x => t2 <- dec_utree x ;; Some [t; t2]
+  | None =>
+    match rearrange t with
+    | Some (ms, _) => m <- nth_error ms at_ ;; Some [t; m]
+    | None => None
+    end
+  end.
+
 Definition judge (c o : sexp) : verdict :=
-  match get "trees" c with
+  match (match get "trees" c with Some x => Some x | None => get "par" c end) with
   | Some x =>
     match dec_list dec_utree x, (r <- get "runs" o ;; list_of r) with
     | Some ts, Some os => judge_multi ts os
@@ -419,11 +441,22 @@ Definition judge (c o : sexp) : verdict :=
   | None =>
     match get_tree "tree" c with
     | Some t =>
+      match get "at" c with
+      | Some _ =>
+        match nested_trees c t, (r <- get "runs" o ;; list_of r) with
+        | Some ts, Some os => judge_multi ts os
+        | _, _ => match get "panic" o with
+                  | Some (Atom a) => VOracle ("the implementation panicked: " ++ a)
+                  | _ => VBad "undecodable nested case or observation"
+                  end
+        end
+      | None =>
       let ops := match get "ops" c with Some x => dec_list dec_op x | None => None end in
       let collect := match get "collect" c with Some x => dec_list dec_nat x | None => None end in
       match get "ops" c, ops with
       | Some _, None => VBad "undecodable operations"
       | _, _ => judge_one t o ops collect
+      end
       end
     | None => VBad "undecodable case or observation"
     end
